@@ -291,6 +291,24 @@ def replay(cfg, events):
                 elif how == "publicID":
                     # two documents loaded under the same public id (a file reloaded, a newer version of it)
                     guarded(lambda: target.parse(data=e["text"], format=e["fmt"], publicID="http://ex.example/doc"))
+                elif how == "sparql_load":
+                    # the SPARQL Update operation LOAD, every document into the graph of its own name (a second load is a refresh of that graph)
+                    import os as _os
+                    d_ = "/tmp/rvf-load-%d" % _os.getpid()
+                    _os.makedirs(d_, exist_ok=True)
+                    path = _os.path.join(d_, e["docname"].replace("/", "_") + "." + {"nt": "nt", "turtle": "ttl", "xml": "rdf"}[e["fmt"]])
+                    with open(path, "wb") as f_:
+                        f_.write(e["text"].encode("utf-8"))
+                    iri = "file://" + path
+                    try:
+                        if isinstance(sink, (Dataset, ConjunctiveGraph)):
+                            e["into"] = iri
+                            e["doc"] = [list(q[:3]) + [{"k": "iri", "v": iri}] for q in e["doc"]]      # (what the document means there: all of it in that graph)
+                            guarded(lambda: sink.update("LOAD <%s> INTO GRAPH <%s>" % (iri, iri)))
+                        else:
+                            guarded(lambda: sink.update("LOAD <%s>" % iri))
+                    finally:
+                        _os.remove(path)
                 elif how in ("path", "file"):
                     import os as _os
                     import tempfile as _tempfile
